@@ -65,6 +65,7 @@ type Pager struct {
 	txBytes    map[uint32][]byte // their last content
 	walSizeN   uint32            // committed database size (real pages) while in WAL mode
 	readLock   bool
+	failed     bool  // fail_rb: the failing finalisation has been attempted
 	LastWALOff int64 // offset of the first frame of the last written transaction
 	LastWALLen int64
 }
@@ -138,6 +139,7 @@ var journalMagic = []byte{0xd9, 0xd5, 0x05, 0xf9, 0x20, 0xa1, 0x63, 0xd7}
 // BeginJ opens the database and takes SHARED then RESERVED, as a SQLite writer does.
 func (p *Pager) BeginJ(pl Plan) error {
 	p.plan = pl
+	p.failed = false
 	if err := p.C.OpenDB(true); err != nil {
 		return fmt.Errorf("open db: %w", err)
 	}
@@ -325,10 +327,13 @@ func (p *Pager) JRbPage(q int) error {
 // image becomes the new image.
 func (p *Pager) JFinal() error {
 	var err error
-	if p.plan.Out == "commit" {
+	if p.plan.Out == "commit" || (p.plan.Out == "fail_rb" && !p.failed) {
 		if e := p.C.SyncDB(); e != nil {
 			return e
 		}
+	}
+	if p.plan.Out == "fail_rb" {
+		p.failed = true // the first finalisation is the one that fails; the second ends the rollback
 	}
 	switch p.plan.Fin {
 	case "DELETE":
